@@ -71,8 +71,11 @@ func (s *Service) Attest(ctx context.Context, duty *attester.Duty) ([]*phase0.At
 	}
 
 	// Set the per-validator information.
+	// The map must be built from the duty's own list of validator indices, as that is the list
+	// that runs parallel to the duty's committee indices and validator committee indices.  The
+	// filtered list above omits validators that have already attested, so its positions differ.
 	validatorIndexToArrayIndexMap := make(map[phase0.ValidatorIndex]int)
-	for i, index := range validatorIndices {
+	for i, index := range duty.ValidatorIndices() {
 		validatorIndexToArrayIndexMap[index] = i
 	}
 	committeeIndices := make([]phase0.CommitteeIndex, len(validatingAccounts))
